@@ -143,7 +143,7 @@ def build_scheduler(desc, sort_wrapper=None):
             est = al.SimpleRampdown()
         elif sd.get("est") == "fixed":
             r = random.Random(f"fb:{sd.get('seed', 1)}")
-            est = FixedBound({s["id"]: r.choice([6.0, 10.0, 13.5, 20.0, 40.0]) for s in desc["sessions"]
+            est = FixedBound({s["id"]: r.choice([6.0, 10.0, 13.5, 20.0, 40.0, 0.0, 0, 0.4]) for s in desc["sessions"]
                               if r.random() < 0.8})
         cls = al.SortedSchedulingAlgo if sd["algo"] == "greedy" else al.RoundRobin
         kw = dict(estimate_max_rate=est is not None, max_rate_estimator=est,
